@@ -167,9 +167,15 @@ Relabel(v, pre) ==
   ELSE [v EXCEPT !.lbl = pre \o @,
                  !.kv = [i \in DOMAIN v.kv |-> [k |-> Relabel(v.kv[i].k, pre), v |-> Relabel(v.kv[i].v, pre)]]]
 
+(* The same value with a fresh ROOT allocation; everything below keeps its  *)
+(* labels, i.e. is shared with the original (cross-value sharing).          *)
+ShareInner(v) ==
+  IF "lbl" \in DOMAIN v THEN [v EXCEPT !.lbl = "h:" \o @] ELSE v
+
 -----------------------------------------------------------------------------
 (* Single-position mutations of a value.  Result: sequence of              *)
-(*   [v |-> mutated value, kind |-> "leaf"|"nil"|"len"|"key"|"nil+len",    *)
+(*   [v |-> mutated value, kind |-> "leaf"|"nil"|"len"|"key"|"nil+len"|    *)
+(*    "ign" (a change the user's Equal method ignores: still equal),       *)
 (*    dir |-> "lt"|"gt"|"none"]                                            *)
 (* dir is the direction the ORIGINAL stands to the MUTATED value where the *)
 (* property prescribes one ("lt": original < mutated).                     *)
@@ -239,7 +245,9 @@ Muts(env, T, v, p, tw) ==
                        LAMBDA w : [v EXCEPT !.kv[i].k = w])))
     [] T.k = "struct" -> LET e2 == Bind(env, T) IN
          FlatSeq(Seq1(Len(T.fields), LAMBDA i :
-            LiftM(Muts(e2, T.fields[i].t, v.fs[i], p \o "." \o ToString(i), tw), LAMBDA w : [v EXCEPT !.fs[i] = w])))
+            LET ms == LiftM(Muts(e2, T.fields[i].t, v.fs[i], p \o "." \o ToString(i), tw), LAMBDA w : [v EXCEPT !.fs[i] = w]) IN
+            \* the user's methods look at the first field only: a change elsewhere is IGNORED by them
+            IF HasMeth(T) /\ i > 1 /\ ~tw THEN [q \in DOMAIN ms |-> [ms[q] EXCEPT !.kind = "ign", !.dir = "none"]] ELSE ms))
 
 -----------------------------------------------------------------------------
 (* Pool(T): the bounded, boundary-biased sequence of values of T.  Entry:  *)
@@ -263,7 +271,9 @@ Pool(T) ==
               (IF HasSlice(T) THEN << Entry("cap", 3, "same", "none",
                     Relabel(Base(NoEnv, T, [Mode0 EXCEPT !.extra = 2], "r", 0, 1), "c:")) >> ELSE <<>>) \o
               (IF HasMap(T) THEN << Entry("perm", 3, "same", "none",
-                    Relabel(Base(NoEnv, T, [Mode0 EXCEPT !.rev = TRUE], "r", 0, 1), "p:")) >> ELSE <<>>)
+                    Relabel(Base(NoEnv, T, [Mode0 EXCEPT !.rev = TRUE], "r", 0, 1), "p:")) >> ELSE <<>>) \o
+              \* cross-value sharing: a fresh root allocation whose inner allocations ARE the base's
+              (IF Allocates(T) THEN << Entry("xshare", 3, "same", "none", ShareInner(Relabel(B0, "b:"))) >> ELSE <<>>)
       n1   == Len(head) + Len(bm) + Len(em) + Len(same)
       FZ0  == Base(NoEnv, T, [Mode0 EXCEPT !.fz = "z"], "r", 0, 1)
       fz   == IF HasFloat(T) THEN
